@@ -24,6 +24,7 @@ import (
 	"github.com/influxdata/influxdb/logger"
 	"github.com/openGemini/openGemini/lib/config"
 	"github.com/openGemini/openGemini/lib/statisticsPusher/statistics"
+	"github.com/openGemini/openGemini/lib/verifhook"
 	"go.uber.org/zap"
 )
 
@@ -324,6 +325,7 @@ func (m *MmsTables) deleteUnorderedFiles(mst string, files []TSSPFile) {
 	if !noFiles {
 		return
 	}
+	verifhook.Yield("deleteUnorderedFiles.beforeMapDelete")
 
 	m.mu.Lock()
 	defer m.mu.Unlock()
